@@ -115,7 +115,7 @@ pub fn charstr() -> BoxedStrategy<Bytes> {
         1 => Just(Bytes(vec![])),
         6 => bytes(20),
         1 => vec(any::<u8>(), 250..=255).prop_map(Bytes),
-        1 => select(vec![&b"key=value"[..], b"k=", b"k", b"=v", b"\xff\xfe=\xc0", b"a;b=c", b"\x00"]).prop_map(|s| Bytes(s.to_vec())),
+        1 => select(vec![&b"key=value"[..], b"k=", b"k", b"=v", b"\xff\xfe=\xc0", b"a;b=c", b"\x00", b"sep=\"", b"k=\"\"", b"\"", b"k=\"v\"", b"\"k\"=v", b"k='"]).prop_map(|s| Bytes(s.to_vec())),
     ]
     .boxed()
 }
@@ -261,8 +261,18 @@ pub fn aquestion_n(names: BoxedStrategy<AName>) -> BoxedStrategy<AQuestion> {
         .boxed()
 }
 
+/// EDNS option codes: the assigned ones (NSID 3, ECS 8, EXPIRE 9, COOKIE 10, KEEPALIVE 11, PADDING 12, EDE 15 ...) and any value
+pub fn opt_code() -> BoxedStrategy<u16> {
+    prop_oneof![2 => select(vec![1u16, 2, 3, 5, 6, 7, 8, 9, 10, 11, 12, 13, 14, 15, 16, 17, 18, 19, 20, 26946, 65001, 65534]), 2 => u16b()].boxed()
+}
+
+/// option payloads: the lengths option-specific validation would care about, and the usual tails
+pub fn opt_data() -> BoxedStrategy<Bytes> {
+    prop_oneof![3 => tail(), 2 => select(vec![0usize, 1, 2, 7, 8, 9, 15, 16, 17, 24, 32, 39, 40, 41]).prop_flat_map(|n| bytes_n(n))].boxed()
+}
+
 pub fn aedns() -> BoxedStrategy<AEdns> {
-    (u16b(), u8b(), vec((u16b(), tail()), 0..=3))
+    (u16b(), u8b(), vec((opt_code(), opt_data()), 0..=3))
         .prop_map(|(udp, version, options)| AEdns { udp, version, options })
         .boxed()
 }
@@ -410,10 +420,39 @@ impl Sharing {
     }
 }
 
+/// a packet whose owner names form a staircase: each name is the previous one plus a leading label,
+/// shortest first (deep pointer chains in the compressed form) or longest first
+pub fn staircase() -> BoxedStrategy<APacket> {
+    (2usize..48, any::<bool>(), select(vec!["a", "b", "xy"]), select(vec![vec!["local"], vec!["example", "com"], vec![]]), any::<u16>())
+        .prop_map(|(depth, ascending, lab, base, id)| {
+            let mut names: Vec<AName> = Vec::new();
+            let mut cur: Vec<Bytes> = base.iter().map(|s| Bytes(s.as_bytes().to_vec())).collect();
+            for k in 0..depth {
+                let mut l = lab.as_bytes().to_vec();
+                l.push(b'0' + (k % 10) as u8);
+                cur.insert(0, Bytes(l));
+                if AName(cur.clone()).wire_len() > 255 {
+                    break;
+                }
+                names.push(AName(cur.clone()));
+            }
+            if !ascending {
+                names.reverse();
+            }
+            let mut p = APacket { id, flags: 0x8400, ..Default::default() };
+            for (k, n) in names.into_iter().enumerate() {
+                let rdata = if k % 3 == 2 { ARData::Typed { code: 5, fields: vec![Val::Name(n.clone())] } } else { ARData::Typed { code: 1, fields: vec![Val::U32(k as u32)] } };
+                p.answers.push(ARecord { name: n, class: 1, cache_flush: false, ttl: 60, rdata });
+            }
+            p
+        })
+        .boxed()
+}
+
 pub fn sharing(t: crate::runner::Tier) -> BoxedStrategy<Sharing> {
     let (wsmall, wlarge) = t.pick((12, 1), (4, 1));
     (
-        apacket_n(t.pick(4, 6), share_name()),
+        prop_oneof![12 => apacket_n(t.pick(4, 6), share_name()), 1 => staircase()],
         prop_oneof![
             wsmall => Just(0u32),
             wlarge => prop_oneof![16200u32..16500, 15000u32..18000, 30000u32..64000, 1u32..16000],
